@@ -1,8 +1,8 @@
 (* C19 -- decoders survive arbitrary input.
    Only statements, [exact], and Print Assumptions live here. *)
 From Coq Require Import List NArith Arith Bool.
-From DS Require Import Gen.Constants Base.Bytes Base.LE64 Model.Format Model.Index Model.Protocol Model.Archive
-     Proofs.FormatProofs Proofs.DecoderProofs.
+From DS Require Import Gen.Constants Base.Bytes Base.LE64 Model.Format Model.Index Model.Protocol Model.Archive Model.ProtocolServer
+     Proofs.FormatProofs Proofs.DecoderProofs Proofs.ProtocolServerProofs.
 Import ListNotations.
 Local Open Scope N_scope.
 
@@ -35,6 +35,29 @@ Theorem C19_decoders_alloc_bound : forall b : bytes,
   (forall st, decode_archive_next_alloc st b <= lenN b + 65536) /\ decode_archive_alloc b <= lenN b + 65536.
 Proof. exact decoders_alloc_bound. Qed.
 Print Assumptions C19_decoders_alloc_bound.
+
+(* The protocol endpoints.  ProtocolServer.Serve on EVERY byte stream a client can send and for every
+   chunk store (a function of the requested id): handshake, wanted-service check, then the dispatch on
+   (type, body length) of each message -- it returns nil or an error, never panics in m.Body[8:40],
+   its loop is bounded by the input, and what it allocates for the input is bounded. *)
+Theorem C19_server_total : forall (store : bytes -> store_res) (b : bytes),
+  survives (decode_serve store b) /\ decode_serve_alloc store b <= lenN b + 65536.
+Proof. exact server_total. Qed.
+Print Assumptions C19_server_total.
+
+(* a REQUEST whose body is shorter than 8 flag bytes + a 32-byte id is answered with an error *)
+Theorem C19_server_rejects_short_request : forall (store : bytes -> store_res) (body rest : bytes),
+  lenN body < 40 ->
+  exists a, serve_one 40 store (write_message (CaProtocolRequest, body) ++ rest) = (Err TooShort, rest, a).
+Proof. exact server_rejects_short_request. Qed.
+Print Assumptions C19_server_rejects_short_request.
+
+(* the client side: RecvHello, then RequestChunk's handling of whatever the server answers
+   (CHUNK with a body < 40, MISSING with any body, ABORT, unknown types, truncated messages) *)
+Theorem C19_client_total : forall b : bytes,
+  survives (decode_client b) /\ decode_client_alloc b <= lenN b + 65536.
+Proof. exact client_total. Qed.
+Print Assumptions C19_client_total.
 
 (* ---- the same model with the element-size handling as it was before commit
         "fix: decoders validate element sizes ..." ([PreFix]) violates both ---- *)
@@ -92,3 +115,15 @@ Example C19_example_nameless_entry :
                                  Entry (mkHeader 64 CaFormatEntry) 0 33188 0 0 0 7;
                                  Payload (mkHeader 17 CaFormatPayload) [1] ]) = Err InvalidFormat.
 Proof. vm_compute. reflexivity. Qed.
+
+(* Serve with the guard `len(m.Body) < 32` (the id alone, forgetting the 8 flag bytes): a REQUEST with a
+   32..39 byte body after a completed handshake panics in m.Body[8:40]; the real guard reports an error *)
+Definition ex_hello : bytes := write_message (CaProtocolHello, le64 CaProtocolPullChunks).
+Definition ex_short_request : bytes := write_message (CaProtocolRequest, repeat 7 35).
+Example C19_server_guard32_refuted :
+  run_result (serve 32 (fun _ => SMissing)) (ex_hello ++ ex_short_request) = Panic SliceBounds /\
+  decode_serve (fun _ => SMissing) (ex_hello ++ ex_short_request) = Err TooShort /\
+  decode_serve (fun _ => SMissing)
+    (ex_hello ++ write_message (CaProtocolRequest, repeat 7 40) ++ write_message (CaProtocolGoodbye, [])) =
+    Ok ([RMissing (repeat 7 32)], []).
+Proof. vm_compute. repeat split; reflexivity. Qed.
